@@ -134,8 +134,13 @@ def run(rep, tier, seed, model_ok=True, effort=1):
         strs.append(s)
     key_items, meta = [], []
     objs = {}
-    for s in strs:
-        v = bv.parse_version(s)
+    for s in list(strs):
+        try:
+            v = bv.parse_version(s)
+        except Exception as ex:
+            rep.violation("parse_version raised %r" % ex, input=dict(s=s), **{"class": "parse-raises"})
+            strs.remove(s)
+            continue
         objs[s] = v
         is_ver = isinstance(v, sv.Version)
         rep.case(s)
@@ -161,7 +166,12 @@ def run(rep, tier, seed, model_ok=True, effort=1):
     for _ in range(npairs):
         a, b = r.choice(strs), r.choice(strs)
         va, vb = objs[a], objs[b]
-        code = 0 if va < vb else (1 if va == vb else 2)
+        try:
+            code = 0 if va < vb else (1 if va == vb else 2)
+            _ = (va <= vb, va > vb, va >= vb, va != vb)
+        except Exception as ex:
+            rep.violation("comparing two version strings raised %r" % ex, input=dict(a=a, b=b), **{"class": "compare-raises"})
+            continue
         if (va <= vb) != (code <= 1) or (va > vb) != (code == 2) or (va >= vb) != (code >= 1) or (va != vb) != (code != 1):
             rep.violation("comparison operators are inconsistent", input=dict(a=a, b=b), **{"class": "ops-inconsistent"})
         if (va == vb) != (va._key == vb._key):
